@@ -187,10 +187,14 @@ def run_pipeline(sc, p):
     s = SettingsCreator(link_type=sc["link_type"], unique_id_column_name=uidn, comparisons=comps,
                         blocking_rules_to_generate_predictions=rules, probability_two_random_records_match=0.05,
                         retain_intermediate_calculation_columns=False)
-    con = duckdb.connect()
-    if p["threads"]:
-        con.execute(f"SET threads={p['threads']}")
-    lk = su.linker(dfs, s, "duckdb", aliases=aliases if len(dfs) > 1 else None, api=DuckDBAPI(connection=con))
+    if sc.get("backend", "duckdb") == "sqlite":
+        # the whole scenario (canonical run and its presentations) runs on SQLite; threads do not apply
+        lk = su.linker(dfs, s, "sqlite", aliases=aliases if len(dfs) > 1 else None)
+    else:
+        con = duckdb.connect()
+        if p["threads"]:
+            con.execute(f"SET threads={p['threads']}")
+        lk = su.linker(dfs, s, "duckdb", aliases=aliases if len(dfs) > 1 else None, api=DuckDBAPI(connection=con))
     sink = io.StringIO()
     with contextlib.redirect_stdout(sink):
         lk._debug_mode = "train" in p["debug"]
@@ -339,7 +343,7 @@ def run(ctx: Ctx):
     ctx.trusted += [
         "X: DuckDB evaluates each canonical rule per pair (outcome matrix for the Gallina block model)",
         "scores / trained parameters / partitions of a presentation are compared with the canonical run in Python (tolerance 1e-9 / 1e-7); their agreement with the Gallina scoring, EM and clustering models is established by the C02, C03, C05 checks",
-        "not covered by proof: DuckDB thread scheduling (explored with threads in {1,2,8,16})",
+        "not covered by proof: DuckDB thread scheduling (explored with threads in {1,2,8,16}); every fourth scenario runs on SQLite instead",
     ]
     ok = ctx.proof_stage("Properties/C13.v")
     if not ok:
@@ -377,6 +381,9 @@ def run(ctx: Ctx):
     py_diffs = []
     for si in range(nsc):
         sc = gen_scenario(ctx.rng)
+        # every fourth scenario runs (canonical run and all its presentations) on SQLite
+        sc["backend"] = "sqlite" if si % 4 == 3 else "duckdb"
+        ctx.hist("backend", sc["backend"])
         ident = gen_presentation(ctx.rng, sc, identity=True)
         try:
             base = run_pipeline(sc, ident)
